@@ -67,6 +67,8 @@ static long op_cmd_null (SNDFILE *sf) { int r ; INLIB (r = sf_command (sf, SFC_G
 static long op_setstr (SNDFILE *sf) { int r ; INLIB (r = sf_set_string (sf, SF_STR_TITLE, "T")) ; return r ; }
 static int  k_setstr (void) { return writable () ? V_VALID : V_INVALID ; }
 static long op_setstr_null (SNDFILE *sf) { int r ; INLIB (r = sf_set_string (sf, SF_STR_TITLE, NULL)) ; return r ; }
+static long op_setstr_empty (SNDFILE *sf) { int r ; INLIB (r = sf_set_string (sf, SF_STR_TITLE, "")) ; return r ; }	/* only the software string may be empty */
+static int  k_setstr_empty (void) { return writable () ? V_INVALID : V_NA ; }
 static long op_setstr_type (SNDFILE *sf) { int r ; INLIB (r = sf_set_string (sf, 0x777, "x")) ; return r ; }
 static long op_setchunk_null (SNDFILE *sf) { int r ; INLIB (r = sf_set_chunk (sf, NULL)) ; return r ; }
 static long op_chunksize_null (SNDFILE *sf) { int r ; SF_CHUNK_INFO ci ; (void) sf ; memset (&ci, 0, sizeof (ci)) ; INLIB (r = sf_get_chunk_size (NULL, &ci)) ; return r ; }
@@ -88,7 +90,7 @@ static const Op ops [] =
 	{ "seek-wmode-cur0", k_seek_wmode, op_seek_wmode_cur0, RK_SEEK }, { "seek-wmode-cur1", k_seek_wmode, op_seek_wmode_cur1, RK_SEEK }, { "seek-wmode-end", k_seek_wmode, op_seek_wmode_end, RK_SEEK },
 	{ "seek-rmode-cur0", k_seek_rmode, op_seek_rmode_cur0, RK_SEEK }, { "seek-rmode-cur1", k_seek_rmode, op_seek_rmode_cur1, RK_SEEK }, { "seek-rmode-end", k_seek_rmode, op_seek_rmode_end, RK_SEEK },
 	{ "cmd-unknown", k_inv, op_cmd_unknown, RK_CODE }, { "cmd-null", k_inv, op_cmd_null, RK_CODE },
-	{ "setstr-null", k_inv, op_setstr_null, RK_CODE }, { "setstr-type", k_inv, op_setstr_type, RK_CODE },
+	{ "setstr-null", k_inv, op_setstr_null, RK_CODE }, { "setstr-empty", k_setstr_empty, op_setstr_empty, RK_CODE }, { "setstr-type", k_inv, op_setstr_type, RK_CODE },
 	{ "setchunk-null", k_inv, op_setchunk_null, RK_CODE }, { "chunksize-null", k_inv, op_chunksize_null, RK_CODE },
 } ;
 #define NOPS ((int) (sizeof (ops) / sizeof (ops [0])))
